@@ -126,6 +126,32 @@ impl World {
                     Err(e) => err_outcome(e),
                 }
             }
+            DOp::Reindex { .. } => {
+                let cur = self.knobs.indexes;
+                let new = indexes_after(cur, op);
+                if let Err(e) = self.db.close_collection(COLL).await {
+                    return err_outcome(e);
+                }
+                let r = self
+                    .db
+                    .open_or_create_collection(
+                        SimDoc::schema().expect("schema"),
+                        anda_db::collection::CollectionConfig { name: COLL.to_string(), description: "sim docs".to_string() },
+                        async |c| {
+                            remove_indexes(c, cur & !new).await?;
+                            install_indexes(c, new).await
+                        },
+                    )
+                    .await;
+                match r {
+                    Ok(c) => {
+                        self.coll = c;
+                        self.knobs.indexes = new;
+                        Outcome::Ok
+                    }
+                    Err(e) => err_outcome(e),
+                }
+            }
             DOp::Reconnect => {
                 if let Err(e) = self.db.close().await {
                     return err_outcome(e);
@@ -188,7 +214,7 @@ pub struct Ledger {
 }
 
 pub fn acks_flush(op: &DOp) -> bool {
-    matches!(op, DOp::Flush | DOp::Reopen | DOp::Reconnect)
+    matches!(op, DOp::Flush | DOp::Reopen | DOp::Reconnect | DOp::Reindex { .. })
 }
 
 /// Verifies one crash state against the ledger. `k` = number of completed
@@ -286,7 +312,7 @@ impl<'a> CrashCheck<'a> {
     /// Full verification of one booted crash state.
     pub fn verify(&self, b: &mut BootedFork, k: usize, ctx: &str, rep: &mut RunReport) -> Result<Obs, Violation> {
         let max_id = self.ledger.handed.last().map(|s| s.iter().copied().max().unwrap_or(0)).unwrap_or(0);
-        let obs = block(observe(&b.world.coll, self.knobs.indexes, &b.world.vocab, max_id)).map_err(|mut v| {
+        let obs = block(observe(&b.world.coll, b.world.knobs.indexes, &b.world.vocab, max_id)).map_err(|mut v| {
             v.message = format!("{ctx}: {}", v.message);
             v
         })?;
